@@ -1,31 +1,319 @@
 import YarlModel
+import Std.Data.HashMap
 open Yarl Yarl.Wire
+
+/-! Line-protocol driver.  One op per stdin line (tab-separated fields), one
+    result per stdout line.  See harness/worker.py / worker_url.py for the
+    implementation side of the same protocol. -/
 
 def parseBackend : String → Option Backend
   | "py" => some .py
   | "c" => some .c
   | _ => none
 
-def handle (fields : List String) : String :=
-  match fields with
-  | ["q", b, cfg, s] =>
-    match parseBackend b, findQuoter cfg, decStr s with
-    | some b, some a, some s => encStr (a.run b s)
-    | _, _, _ => "!bad-op"
-  | ["uq", b, cfg, s] =>
-    match parseBackend b, findUnquoter cfg, decStr s with
-    | some b, some a, some s => encStr (a.run b s)
-    | _, _, _ => "!bad-op"
+abbrev Tab := Std.HashMap (String × Str) String
+
+structure St where
+  urls : Array (Option Url) := #[]
+  orc : Tab := {}
+
+def lookupStr (t : Tab) (fn : String) (a : Str) : Option (Option Str) :=
+  match t.get? (fn, a) with
+  | none => none
+  | some "!" => some none
+  | some r => (decStr r).map some
+
+def lookupBool (t : Tab) (fn : String) (a : Str) : Option Bool :=
+  match t.get? (fn, a) with
+  | some "T" => some true
+  | some "F" => some false
+  | _ => none
+
+def lookupInt (t : Tab) (fn : String) (a : Str) : Option (Option Int) :=
+  match t.get? (fn, a) with
+  | none => none
+  | some "!" => some none
+  | some r => r.toInt?.map some
+
+def mkOracles (t : Tab) : Oracles :=
+  { nfkc := fun s => (lookupStr t "nfkc" s).bind id
+    idnaEnc := lookupStr t "idnaEnc"
+    idnaEncStd := lookupStr t "idnaEncStd"
+    idnaDec := lookupStr t "idnaDec"
+    idnaDecStd := lookupStr t "idnaDecStd"
+    isDigitU := fun c => lookupBool t "isDigitU" [c]
+    intU := lookupInt t "intU"
+    isPrintableU := fun c => lookupBool t "isPrintableU" [c]
+    lowerU := fun s => (lookupStr t "lowerU" s).bind id }
+
+def encErr : PyErr → String
+  | .valueError => "!V"
+  | .typeError => "!T"
+  | .memoryError => "!M"
+  | .indexError => "!X:IndexError"
+  | .keyError => "!X:KeyError"
+  | .attributeError => "!X:AttributeError"
+  | .unicodeError => "!V"
+  | .oracleMiss fn a => "!O:" ++ fn ++ ":" ++ encStr a
+
+def encR {α} (f : α → String) : R α → String
+  | .ok a => f a
+  | .error e => encErr e
+
+def encOptNat : Option Nat → String
+  | none => "~"
+  | some n => toString n
+
+def encList (l : List Str) : String := "L" ++ toString l.length ++ ":" ++ ",".intercalate (l.map encStr)
+def encPairs (l : List (Str × Str)) : String :=
+  "Q" ++ toString l.length ++ ":" ++ ",".intercalate (l.map (fun (k, v) => encStr k ++ "=" ++ encStr v))
+
+/-! ### decoding query arguments -/
+
+def decQVal (s : String) : Option QVal :=
+  match s.toList with
+  | 's' :: r => (decStr (String.ofList r)).map .str
+  | 'i' :: r => (String.ofList r).toInt?.map .int
+  | 'f' :: k :: ':' :: r => (decStr (String.ofList r)).map (fun t => .float t (k.toNat - 48))
+  | ['b'] => some .bool
+  | ['n'] => some .none
+  | ['o'] => some .other
+  | _ => none
+
+def decQItem (s : String) : Option QItem :=
+  if s.startsWith "[" && s.endsWith "]" then
+    let inner := (s.drop 1).dropEnd 1 |>.toString
+    if inner.isEmpty then some (.many [])
+    else ((inner.splitOn "|").mapM decQVal).map .many
+  else (decQVal s).map .one
+
+def decItems (s : String) : Option (List (Str × QItem)) :=
+  if s.isEmpty then some [] else
+  (s.splitOn ";").mapM (fun it =>
+    match it.splitOn "=" with
+    | [k, v] => do pure (← decStr k, ← decQItem v)
+    | _ => none)
+
+def decQArg (s : String) : Option QArg :=
+  match s.toList with
+  | ['N'] => some .none
+  | 'S' :: r => (decStr (String.ofList r)).map .str
+  | 'M' :: r => (decItems (String.ofList r)).map .mapping
+  | 'D' :: r => (decItems (String.ofList r)).map .mapping
+  | 'K' :: r => if r.isEmpty then some .noArgs else (decItems (String.ofList r)).map .mapping
+  | 'P' :: r => (decItems (String.ofList r)).map .pairs
+  | 'U' :: r => (decItems (String.ofList r)).map .pairs
+  | ['B', '0'] => some (.bytes true)
+  | ['B', '1'] => some (.bytes false)
+  | ['O'] => some .other
+  | _ => none
+
+/-- port argument: `~` None, `T` bool, `X` other type, otherwise a decimal int -/
+def decPort (s : String) : Option (Option Int × Nat) :=
+  if s = "~" then some (none, 0)
+  else if s = "T" then some (none, 1)
+  else if s = "X" then some (none, 2)
+  else s.toInt?.map (fun n => (some n, 0))
+
+def decBool (s : String) : Bool := s = "T"
+
+def decBuildArgs (fields : List String) : Option BuildArgs :=
+  fields.foldlM (fun (a : BuildArgs) f =>
+    match f.splitOn "=" with
+    | k :: rest =>
+      let v := "=".intercalate rest
+      match k with
+      | "scheme" => (decStr v).map (fun s => { a with scheme := s })
+      | "authority" => (decStr v).map (fun s => { a with authority := s })
+      | "user" => (decOptStr v).map (fun s => { a with user := s })
+      | "password" => (decOptStr v).map (fun s => { a with password := s })
+      | "host" => (decStr v).map (fun s => { a with host := s })
+      | "port" => (decPort v).map (fun (p, k) => { a with port := p, portKind := k })
+      | "path" => (decStr v).map (fun s => { a with path := s })
+      | "query" => (decQArg v).map (fun s => { a with query := s })
+      | "query_string" => (decStr v).map (fun s => { a with queryString := s })
+      | "fragment" => (decStr v).map (fun s => { a with fragment := s })
+      | "encoded" => some { a with encoded := decBool v }
+      | _ => none
+    | _ => none) {}
+
+def getUrl (st : St) (h : String) : Option Url :=
+  match h.toNat? with
+  | some i => (st.urls[i]?).bind id
+  | none => none
+
+def pushUrl (st : St) (r : R Url) : St × String :=
+  match r with
+  | .ok u => ({ st with urls := st.urls.push (some u) }, "#" ++ toString st.urls.size)
+  | .error e => ({ st with urls := st.urls.push none }, encErr e)
+
+def observe (e : Env) (u : Url) (nm : String) : String :=
+  match nm with
+  | "str" => encR encStr (str e u)
+  | "bytes" => encR (fun s => if isAscii s then encStr s else "!V") (str e u)
+  | "scheme" => encStr u.scheme
+  | "raw_authority" => encStr u.netloc
+  | "authority" => encR encStr (authority e u)
+  | "raw_user" => encR encOptStr (rawUser e u)
+  | "user" => encR encOptStr (user e u)
+  | "raw_password" => encR encOptStr (rawPassword e u)
+  | "password" => encR encOptStr (password e u)
+  | "raw_host" => encR encOptStr (rawHost e u)
+  | "host" => encR encOptStr (host e u)
+  | "host_subcomponent" => encR encOptStr (hostSubcomponent e u)
+  | "host_port_subcomponent" => encR encOptStr (hostPortSubcomponent e u)
+  | "port" => encR encOptNat (port e u)
+  | "explicit_port" => encR encOptNat (explicitPort e u)
+  | "is_default_port" => encR encBool (isDefaultPort e u)
+  | "raw_path" => encStr (rawPath u)
+  | "path" => encStr (pathDecoded e u)
+  | "path_safe" => encStr (pathSafe e u)
+  | "query" => encPairs (queryPairs u)
+  | "raw_query_string" => encStr u.query
+  | "query_string" => encStr (queryString e u)
+  | "path_qs" => encStr (pathQs e u)
+  | "raw_path_qs" => encStr (rawPathQs u)
+  | "raw_fragment" => encStr u.fragment
+  | "fragment" => encStr (fragmentDecoded e u)
+  | "raw_parts" => encList (rawParts u)
+  | "parts" => encList (partsDecoded e u)
+  | "raw_name" => encR encStr (rawName u)
+  | "name" => encR encStr (name e u)
+  | "raw_suffix" => encR encStr (rawSuffix u)
+  | "suffix" => encR encStr (suffix e u)
+  | "raw_suffixes" => encR encList (rawSuffixes u)
+  | "suffixes" => encR encList (suffixes e u)
+  | "human_repr" => encR encStr (humanRepr e u)
+  | "absolute" => encBool (!u.netloc.isEmpty)
+  | "bool" => encBool u.truthy
+  | "val" => encList [u.scheme, u.netloc, u.path, u.query, u.fragment]
   | _ => "!bad-op"
 
-partial def loop (h : IO.FS.Stream) (out : IO.FS.Stream) : IO Unit := do
+def modifyUrl (e : Env) (u : Url) (nm : String) (args : List String) : Option (R Url) :=
+  match nm, args with
+  | "with_scheme", [s] => (decStr s).map (withScheme e u)
+  | "with_user", [s] => (decOptStr s).map (withUser e u)
+  | "with_password", [s] => (decOptStr s).map (withPassword e u)
+  | "with_host", [s] => (decStr s).map (withHost e u)
+  | "with_port", [p] => (decPort p).map (fun (p, k) => withPort e u p k)
+  | "with_path", [s, enc, kq, kf] => (decStr s).map (fun s => pure (withPath e u s (decBool enc) (decBool kq) (decBool kf)))
+  | "with_query", [a] => (decQArg a).map (withQuery e u)
+  | "extend_query", [a] => (decQArg a).map (extendQuery e u)
+  | "update_query", [a] => (decQArg a).map (updateQuery e u)
+  | "without_query_params", names => (names.mapM decStr).map (withoutQueryParams e u)
+  | "with_fragment", [s] => (decOptStr s).map (fun f => pure (withFragment e u f))
+  | "with_name", [s, kq, kf] => (decStr s).map (fun s => withName e u s (decBool kq) (decBool kf))
+  | "with_suffix", [s, kq, kf] => (decStr s).map (fun s => withSuffix e u s (decBool kq) (decBool kf))
+  | "truediv", [s] => (decStr s).map (fun s => makeChild e u [s] false)
+  | "joinpath", enc :: paths => (paths.mapM decStr).map (fun ps => makeChild e u ps (decBool enc))
+  | "parent", [] => some (pure (parent u))
+  | "origin", [] => some (origin e u)
+  | "relative", [] => some (relative u)
+  | _, _ => none
+
+def step (st : St) (fields : List String) : St × String :=
+  match fields with
+  | ["orc", fn, arg, res] =>
+    match decStr arg with
+    | some a => ({ st with orc := st.orc.insert (fn, a) res }, "ok")
+    | none => (st, "!bad-op")
+  | ["q", b, cfg, s] =>
+    match parseBackend b, findQuoter cfg, decStr s with
+    | some b, some a, some s => (st, encStr (a.run b s))
+    | _, _, _ => (st, "!bad-op")
+  | ["uq", b, cfg, s] =>
+    match parseBackend b, findUnquoter cfg, decStr s with
+    | some b, some a, some s => (st, encStr (a.run b s))
+    | _, _, _ => (st, "!bad-op")
+  | ["np", s] =>
+    match decStr s with
+    | some s => (st, encStr (normalizePath s))
+    | none => (st, "!bad-op")
+  | ["rds", s] =>
+    match decStr s with
+    | some s => (st, encStr (Rfc.removeDotSegments s))
+    | none => (st, "!bad-op")
+  | ["su", s] =>
+    match decStr s with
+    | some s => (st, encR (fun p => encList [p.scheme, p.netloc, p.path, p.query, p.fragment]) (splitUrl (mkOracles st.orc) s))
+    | none => (st, "!bad-op")
+  | ["sn", s] =>
+    match decStr s with
+    | some s => (st, encR (fun r => encOptStr r.user ++ " " ++ encOptStr r.password ++ " " ++ encOptStr r.host ++ " " ++ encOptNat r.port)
+                    (splitNetloc (mkOracles st.orc) s))
+    | none => (st, "!bad-op")
+  | ["eh", s, v] =>
+    match decStr s with
+    | some s => (st, encR encStr (encodeHost (mkOracles st.orc) s (decBool v)))
+    | none => (st, "!bad-op")
+  | ["new", b, mode, s] =>
+    match parseBackend b, decStr s with
+    | some b, some s =>
+      let e : Env := { b := b, o := mkOracles st.orc }
+      pushUrl st (if mode = "e" then preEncodedUrl e s else encodeUrl e s)
+    | _, _ => (st, "!bad-op")
+  | "bld" :: b :: args =>
+    match parseBackend b, decBuildArgs args with
+    | some b, some a =>
+      let e : Env := { b := b, o := mkOracles st.orc }
+      pushUrl st (build e a)
+    | _, _ => (st, "!bad-op")
+  | ["obs", b, h, name] =>
+    match parseBackend b, getUrl st h with
+    | some b, some u => (st, observe { b := b, o := mkOracles st.orc } u name)
+    | some _, none => (st, "!dead")
+    | _, _ => (st, "!bad-op")
+  | "mod" :: b :: h :: name :: args =>
+    match parseBackend b, getUrl st h with
+    | some b, some u =>
+      match modifyUrl { b := b, o := mkOracles st.orc } u name args with
+      | some r => pushUrl st r
+      | none => (st, "!bad-op")
+    | some _, none => ({ st with urls := st.urls.push none }, "!dead")
+    | _, _ => (st, "!bad-op")
+  | ["jn", b, h1, h2] =>
+    match parseBackend b, getUrl st h1, getUrl st h2 with
+    | some b, some u, some v => pushUrl st (pure (join { b := b, o := mkOracles st.orc } u v))
+    | some _, _, _ => ({ st with urls := st.urls.push none }, "!dead")
+    | _, _, _ => (st, "!bad-op")
+  | ["cmp", h1, h2] =>
+    match getUrl st h1, getUrl st h2 with
+    | some u, some v =>
+      (st, encBool (u.beq v) ++ encBool (u.lt v) ++ encBool (u.le v) ++ encBool (u.gt v) ++ encBool (u.ge v))
+    | _, _ => (st, "!dead")
+  | ["pkl", h] =>
+    match getUrl st h with
+    | some u => pushUrl st (pure (pickleTwin u))
+    | none => ({ st with urls := st.urls.push none }, "!dead")
+  | ["hq", s, uns] =>
+    match decStr s, decStr uns with
+    | some s, some uns => (st, encR encStr (humanQuote (mkOracles st.orc) s uns))
+    | _, _ => (st, "!bad-op")
+  | ["pq", s] =>
+    match decStr s with
+    | some s => (st, encPairs (parseQsl s))
+    | none => (st, "!bad-op")
+  | ["wr", n, faults, len] =>
+    -- Writer model: buffer size, comma-separated failing allocation indices, number of bytes
+    match n.toNat?, len.toNat? with
+    | some n, some len =>
+      let fl := (faults.splitOn ",").filterMap String.toNat?
+      let (r, w) := Writer.run n (fun k => fl.contains k) (List.replicate len 97)
+      (st, (match r with | .ok d => "ok " ++ toString d.length | .error _ => "!M") ++
+           " live=" ++ toString w.live.length ++ " freed=" ++ toString w.freed.length)
+    | _, _ => (st, "!bad-op")
+  | ["reset"] => ({ st with urls := #[] }, "ok")
+  | _ => (st, "!bad-op")
+
+partial def loop (h : IO.FS.Stream) (out : IO.FS.Stream) (st : St) : IO Unit := do
   let line ← h.getLine
   if line.isEmpty then return ()
   let line := (line.dropEndWhile (fun c => c == '\n' || c == '\r')).toString
-  out.putStrLn (handle (line.splitOn "\t"))
-  loop h out
+  let (st', r) := step st (line.splitOn "\t")
+  out.putStrLn r
+  loop h out st'
 
 def main : IO Unit := do
   let stdin ← IO.getStdin
   let stdout ← IO.getStdout
-  loop stdin stdout
+  loop stdin stdout {}
